@@ -41,6 +41,12 @@ type Builder struct {
 	// fnBind: locals currently bound to one static function (the value variable
 	// of an unrolled range over a table of functions)
 	fnBind map[types.Object]*types.Func
+	// litBind: function-typed parameters of the function being inlined that received a function
+	// literal at this call (slices.IndexFunc(xs, func(x T) bool {..}))
+	litBind map[types.Object][]*ast.FuncLit
+	// litBindName: the closure term name ("#N") of the literal bound by litBind (the same source
+	// literal is evaluated once per inline instance; this says which evaluation was passed)
+	litBindName map[*ast.FuncLit]string
 	// nextLabel: label of the statement being built (consumed by the loop /
 	// switch context it pushes)
 	nextLabel string
@@ -1050,7 +1056,7 @@ func (b *Builder) onStack(fn *types.Func) bool {
 
 func (b *Builder) inlineFunc(fs *FuncSrc, recv *Term, args []*Term, pos token.Pos) []*Term {
 	sig := fs.Obj.Type().(*types.Signature)
-	inst := &Instance{ID: len(b.G.Insts), Name: b.P.abbrev(fs.Obj.FullName()), Fn: fs.Obj, Parent: b.inst, Depth: b.inst.Depth + 1, CallPos: pos}
+	inst := &Instance{ID: len(b.G.Insts), Name: b.P.abbrev(fs.Obj.FullName()), Fn: fs.Obj, Parent: b.inst, Depth: b.inst.Depth + 1, CallPos: pos, Args: args}
 	b.G.Insts = append(b.G.Insts, inst)
 	saveInst, saveInfo, saveLoops := b.inst, b.info, b.loops
 	b.inst, b.info, b.loops = inst, fs.Pkg.TypesInfo, nil
@@ -1101,6 +1107,16 @@ func (b *Builder) inlineFunc(fs *FuncSrc, recv *Term, args []*Term, pos token.Po
 
 func (b *Builder) inlineLit(lit *ast.FuncLit, args []*Term, pos token.Pos, nres int) []*Term {
 	inst := &Instance{ID: len(b.G.Insts), Name: "lit", Parent: b.inst, Lexical: b.inst, Depth: b.inst.Depth, CallPos: pos, Lit: lit}
+	// a literal handed to another function (slices.IndexFunc(xs, func..)) and called from there:
+	// its free variables and its type information are those of the place that wrote it
+	saveInfo := b.info
+	if nm, ok := b.litBindName[lit]; ok {
+		if li := b.G.Lits[nm]; li != nil && li.Inst != nil && li.Info != nil {
+			inst.Lexical = li.Inst
+			b.info = li.Info
+		}
+	}
+	defer func() { b.info = saveInfo }()
 	b.G.Insts = append(b.G.Insts, inst)
 	saveInst, saveLoops := b.inst, b.loops
 	b.inst, b.loops = inst, nil
